@@ -190,7 +190,7 @@ class ECCMan(object):
         # Detect erasures positions and replace with null bytes (replacing erasures with null bytes is necessary for correct syndrome computation)
         # Note that this must be done before padding, else we risk counting the padded null bytes as erasures!
         erasures_pos = None
-        if enable_erasures:
+        if enable_erasures or only_erasures: # correcting only the erasures implies to detect them (else the decoders are asked to correct only the erasures but are given none: they crash or give up on any corrupted block)
             # Concatenate to find erasures in the whole codeword
             mesecc = message + ecc
             # Convert char to a int (because we use a bytearray)
